@@ -33,9 +33,26 @@ package remedies
 //@   ensures[passed]  result1 != nil <==> real(lapsedTime) / 1000000000.0 >= retryAfterSeconds
 //@   ensures[reduced] result1 == nil ==> result0 == sprintf("%v", retryAfterSeconds - real(lapsedTime) / 1000000000.0)
 
+// the provider's retry-after value, in seconds from now: the header's number as it is (relative seconds) or minus the
+// current epoch second (absolute epoch); any other type is an error, so nothing is stored for it
+//@ func normalizeRetryAfter
+//@   prop C12
+//@   requires clock != nil
+//@   modifies now
+//@   ensures[relative-seconds] result1 == nil && retryAfterType == sharedConfig.RetryAfterRelativeSeconds ==> result0 == strconv.ParseFloat(retryAfterVal, 64)
+//@   ensures[absolute-epoch] result1 == nil && retryAfterType == sharedConfig.RetryAfterAbsoluteEpoch ==> result0 == strconv.ParseFloat(retryAfterVal, 64) - real(now)
+//@   ensures[no-other-type] result1 == nil ==> retryAfterType == sharedConfig.RetryAfterRelativeSeconds || retryAfterType == sharedConfig.RetryAfterAbsoluteEpoch
+//@ func readRetryAfter
+//@   prop C12
+//@   requires clock != nil && remedyConfig != nil
+//@   modifies now
+//@   ensures[needs-the-header] !in(remedyConfig.RetryAfterHeader, headers) ==> result1 != nil
+//@   ensures[relative-seconds] result1 == nil && remedyConfig.RetryAfterType == sharedConfig.RetryAfterRelativeSeconds ==> result0 == strconv.ParseFloat(headers[remedyConfig.RetryAfterHeader], 64)
+//@   ensures[known-type-only] result1 == nil ==> remedyConfig.RetryAfterType == sharedConfig.RetryAfterRelativeSeconds || remedyConfig.RetryAfterType == sharedConfig.RetryAfterAbsoluteEpoch
+
 //@ func getUpdatedHeaders
 //@   prop C12
-//@   requires remedyConfig != nil
+//@   requires remedyConfig != nil && clock != nil
 //@   allocates map
 //@   modifies now
 //@   loop 1 invariant[dom]  forall(k, string, in(k, headers) <==> seen1[k])
@@ -68,6 +85,7 @@ package remedies
 //@   ensures[store-if-absent] seq: forall(k, CacheKey, old(in(k, rbtCache(plugin).cache)) && old(now()) <= old(rbtCache(plugin).cache[k].expirationTimeNano) && now() <= old(rbtCache(plugin).cache[k].expirationTimeNano) ==> in(k, rbtCache(plugin).cache) && rbtCache(plugin).cache[k] == old(rbtCache(plugin).cache[k]))
 //@   ensures[only-own-key] seq: forall(k, CacheKey, k != CacheKey{onResponse.Method, onResponse.URL} ==> (in(k, rbtCache(plugin).cache) <==> old(in(k, rbtCache(plugin).cache))) && rbtCache(plugin).cache[k] == old(rbtCache(plugin).cache[k]))
 //@   ensures[stored-is-this-response] seq: in(CacheKey{onResponse.Method, onResponse.URL}, rbtCache(plugin).cache) && !old(in(CacheKey{onResponse.Method, onResponse.URL}, rbtCache(plugin).cache)) ==> rbtCache(plugin).cache[CacheKey{onResponse.Method, onResponse.URL}].value.Status == onResponse.Status && rbtCache(plugin).cache[CacheKey{onResponse.Method, onResponse.URL}].value.Body == onResponse.Body && rbtCache(plugin).cache[CacheKey{onResponse.Method, onResponse.URL}].value.Headers == onResponse.Headers
+//@   ensures[retry-after-of-this-response] seq: in(CacheKey{onResponse.Method, onResponse.URL}, rbtCache(plugin).cache) && !old(in(CacheKey{onResponse.Method, onResponse.URL}, rbtCache(plugin).cache)) && remedyConfig.RetryAfterType == sharedConfig.RetryAfterRelativeSeconds ==> retryAfterSeconds == strconv.ParseFloat(onResponse.Headers[remedyConfig.RetryAfterHeader], 64)
 //@   ensures[kept-for-retry-after] seq: retryAfterSeconds >= 0.0 && in(CacheKey{onResponse.Method, onResponse.URL}, rbtCache(plugin).cache) && !old(in(CacheKey{onResponse.Method, onResponse.URL}, rbtCache(plugin).cache)) ==> real(rbtCache(plugin).cache[CacheKey{onResponse.Method, onResponse.URL}].expirationTimeNano) <= real(now()) + 1000000000.0 * retryAfterSeconds && real(rbtCache(plugin).cache[CacheKey{onResponse.Method, onResponse.URL}].expirationTimeNano) > real(old(now())) + 1000000000.0 * retryAfterSeconds - 1.0
 
 // ---------------------------------------------------------------- caching remedy (C12)
